@@ -1,19 +1,26 @@
 package main
 
 // C05‑S7/S8: the timer is armed for the earliest entry with a fresh clock
-// reading; the comparator used to find the earliest entry.
+// reading; the comparator used to find the earliest entry; initial Next of
+// existing entries; the timer drain. All facts are established over the
+// scheduler-side functions as a whole (interprocedural flows, values followed
+// through parameters and helper results), not inside one function.
 
 import (
+	"go/constant"
 	"go/token"
 	"go/types"
 
 	"golang.org/x/tools/go/ssa"
 )
 
-// armSites: calls creating the wake-up timer in scheduler-only functions.
+// armSites: calls creating the wake-up timer in scheduler-side functions.
 func (a *c05) armSites() []*ssa.Call {
 	var out []*ssa.Call
-	for fn := range a.schedOnly {
+	for _, fn := range a.funcs {
+		if !a.schedOnly[fn] {
+			continue
+		}
 		allInstrs(fn, func(in ssa.Instruction) {
 			call, ok := in.(*ssa.Call)
 			if !ok {
@@ -33,15 +40,24 @@ func (a *c05) armSites() []*ssa.Call {
 	return out
 }
 
-// isSortOfEntries: call sorts the slice loaded from Cron.entries; returns the
-// named type wrapping it (sort.Interface implementation) if any.
-func (a *c05) isSortOfEntries(call *ssa.Call) (bool, types.Type) {
+// c05Sorter describes how Cron.entries is sorted at a call site.
+type c05Sorter struct {
+	fn      *ssa.Function // Less method / comparator closure (nil: not resolvable)
+	intForm bool          // comparator returns int (slices.SortFunc)
+	elems   bool          // comparator receives the elements (not indices)
+}
+
+// isSortOfEntries: call sorts the slice loaded from Cron.entries.
+func (a *c05) isSortOfEntries(call *ssa.Call) (bool, *c05Sorter) {
 	obj := calleeObj(call)
 	if obj == nil || obj.Pkg() == nil || len(call.Call.Args) == 0 {
 		return false, nil
 	}
 	pp, n := obj.Pkg().Path(), obj.Name()
-	if !(pp == "sort" && (n == "Sort" || n == "Stable" || n == "Slice" || n == "SliceStable") || pp == "slices" && (n == "SortFunc" || n == "SortStableFunc")) {
+	iface := pp == "sort" && (n == "Sort" || n == "Stable")
+	byIdx := pp == "sort" && (n == "Slice" || n == "SliceStable")
+	byElem := pp == "slices" && (n == "SortFunc" || n == "SortStableFunc")
+	if !iface && !byIdx && !byElem {
 		return false, nil
 	}
 	v := call.Call.Args[0]
@@ -49,19 +65,90 @@ func (a *c05) isSortOfEntries(call *ssa.Call) (bool, types.Type) {
 	for i := 0; i < 6; i++ {
 		switch x := v.(type) {
 		case *ssa.MakeInterface:
-			wrap = x.X.Type()
+			if wrap == nil {
+				wrap = x.X.Type()
+			}
 			v = x.X
 			continue
 		case *ssa.ChangeType:
+			if iface {
+				wrap = x.Type()
+			}
 			v = x.X
 			continue
 		}
 		break
 	}
-	if _, ok := c05LoadOf(v, a.fEntries); ok {
-		return true, wrap
+	if _, ok := c05LoadOf(v, a.fEntries); !ok {
+		return false, nil
 	}
-	return false, nil
+	s := &c05Sorter{intForm: byElem, elems: byElem}
+	if iface {
+		if named, ok := wrap.(*types.Named); ok {
+			for i := 0; i < named.NumMethods(); i++ {
+				if named.Method(i).Name() == "Less" {
+					s.fn = a.p.SSA.FuncValue(named.Method(i))
+				}
+			}
+		}
+	} else if len(call.Call.Args) >= 2 {
+		switch c := call.Call.Args[1].(type) {
+		case *ssa.MakeClosure:
+			s.fn, _ = c.Fn.(*ssa.Function)
+		case *ssa.Function:
+			s.fn = c
+		}
+	}
+	return true, s
+}
+
+// entryZero: v is the Next of element #0 of Cron.entries (through helper results).
+// ok=false + undec: shape not understood.
+func (a *c05) firstEntryNext(x ssa.Value, depth int) (why string, understood bool) {
+	if call, ok := x.(*ssa.Call); ok && depth < 3 {
+		if rets := a.returnsOf(call, 0); rets != nil && call.Call.Signature().Results().Len() == 1 {
+			for _, rv := range rets {
+				if w, u := a.firstEntryNext(rv, depth+1); !u || w != "" {
+					return w, u
+				}
+			}
+			return "", true
+		}
+	}
+	E, ok := c05LoadOf(x, a.fNext)
+	if !ok {
+		return "", false
+	}
+	if call, ok := E.(*ssa.Call); ok && depth < 3 {
+		// helper returning the first entry
+		if rets := a.returnsOf(call, 0); rets != nil {
+			for _, rv := range rets {
+				if w, u := a.firstElem(rv); !u || w != "" {
+					return w, u
+				}
+			}
+			return "", true
+		}
+	}
+	return a.firstElem(E)
+}
+
+func (a *c05) firstElem(E ssa.Value) (string, bool) {
+	ld, ok := E.(*ssa.UnOp)
+	var ia *ssa.IndexAddr
+	if ok && ld.Op == token.MUL {
+		ia, _ = ld.X.(*ssa.IndexAddr)
+	}
+	if ia == nil {
+		return "", false
+	}
+	if _, ok := c05LoadOf(ia.X, a.fEntries); !ok {
+		return "", false
+	}
+	if !c05ConstInt(ia.Index, 0) {
+		return "the timer is armed for an entry other than the first of the sorted list", true
+	}
+	return "", true
 }
 
 func (a *c05) checkArming() {
@@ -71,71 +158,60 @@ func (a *c05) checkArming() {
 		r.Undecide("C05.S7: no timer creation (clock.NewTimer/After) found in the scheduler (anchor lost)")
 		return
 	}
-	storesEntries, storesNext := a.mayStore(a.fEntries), a.mayStore(a.fNext)
-	for _, arm := range sites {
-		fn := arm.Parent()
-		base := a.name(fn) + " timer"
-		args := arm.Call.Args
-		var dur ssa.Value
-		if arm.Call.IsInvoke() {
-			dur = args[0]
-		} else if len(args) > 0 {
-			dur = args[0]
+	// sortedness: interprocedural flow, bit 1 = entries sorted since their last mutation
+	var sorters []*c05Sorter
+	sorted := &c05Flow{a: a, G: 2}
+	sorted.Step = func(in ssa.Instruction, g int) (int, bool) {
+		switch v := in.(type) {
+		case *ssa.Call:
+			if is, w := a.isSortOfEntries(v); is {
+				dup := false
+				for _, s := range sorters {
+					if s.fn == w.fn {
+						dup = true
+					}
+				}
+				if !dup {
+					sorters = append(sorters, w)
+				}
+				return 1, true
+			}
+		case *ssa.Store:
+			if _, ok := c05FieldAddr(v.Addr, a.fEntries); ok {
+				return 0, false
+			}
+			if _, ok := c05FieldAddr(v.Addr, a.fNext); ok {
+				return 0, false
+			}
 		}
+		return g, false
+	}
+	sorted.Run(nil)
+
+	for _, arm := range sites {
+		base := "scheduler timer"
+		args := arm.Call.Args
+		if len(args) == 0 {
+			continue
+		}
+		dur := args[0]
 		sub, ok := dur.(*ssa.Call)
 		if !ok || !c05IsTimeMethod(sub, "Sub") {
 			r.Undecide("C05.S7: the timer duration at %s is not of the form <entry>.Next.Sub(<now>); arming not decided", a.pos(arm))
 			continue
 		}
 		x, y := sub.Call.Args[0], sub.Call.Args[1]
-		// X = c.entries[0].Next
-		whyX := ""
-		if E, ok := c05LoadOf(x, a.fNext); !ok {
-			r.Undecide("C05.S7: the instant the timer at %s is armed for is not read from an entry's Next; arming not decided", a.pos(arm))
+		whyX, understood := a.firstEntryNext(x, 0)
+		if !understood {
+			r.Undecide("C05.S7: the instant the timer at %s is armed for is not recognisably the Next of the first element of Cron.entries; arming not decided", a.pos(arm))
 			continue
-		} else {
-			ld, ok := E.(*ssa.UnOp)
-			var ia *ssa.IndexAddr
-			if ok && ld.Op == token.MUL {
-				ia, _ = ld.X.(*ssa.IndexAddr)
-			}
-			if ia == nil {
-				r.Undecide("C05.S7: the entry whose Next arms the timer at %s is not an element of Cron.entries indexed directly; arming not decided", a.pos(arm))
-				continue
-			}
-			if _, ok := c05LoadOf(ia.X, a.fEntries); !ok {
-				whyX = "the timer is armed from a list that is not Cron.entries"
-			} else if !c05ConstInt(ia.Index, 0) {
-				whyX = "the timer is armed for an entry other than the first of the sorted list"
-			}
 		}
-		// sortedness at the arming site
-		var sorter types.Type
-		ff := &FlagFlow{Fn: fn, Must: true,
-			Transfer: func(in ssa.Instruction, st uint64) uint64 {
-				switch v := in.(type) {
-				case *ssa.Call:
-					if is, w := a.isSortOfEntries(v); is {
-						sorter = w
-						return st | 1
-					}
-					if cal := staticCallee(v); cal != nil && (storesEntries[cal] || storesNext[cal]) {
-						return st &^ 1
-					}
-				case *ssa.Store:
-					if _, ok := c05FieldAddr(v.Addr, a.fEntries); ok {
-						return st &^ 1
-					}
-					if _, ok := c05FieldAddr(v.Addr, a.fNext); ok {
-						return st &^ 1
-					}
-				}
-				return st
-			}}
-		ff.Run()
-		st, _ := ff.Before(arm)
-		if whyX == "" && st&1 == 0 {
-			whyX = "Cron.entries is not sorted by Next (sort.Sort on Cron.entries) on every path between the last change of an entry's Next / of the list and the arming of the timer, so entries[0] need not be the earliest"
+		okSorted, reached := sorted.All(arm, func(g int) bool { return g == 1 })
+		if !reached {
+			continue
+		}
+		if whyX == "" && !okSorted {
+			whyX = "Cron.entries is not sorted by Next on every path between the last change of an entry's Next / of the list and the arming of the timer, so entries[0] need not be the earliest"
 		}
 		r.Check(whyX == "", "C05.S7-arm-earliest", base+" armed for the earliest entry", a.pos(arm),
 			"timer armed for Cron.entries[0].Next with the list sorted since its last mutation",
@@ -164,6 +240,18 @@ func (a *c05) checkArming() {
 				}
 				delete(stack, v)
 				return
+			case *ssa.Parameter:
+				acts := a.actualsOf(p)
+				if acts == nil || stack[v] {
+					whyY = "the time subtracted from Next is a parameter whose callers cannot be enumerated"
+					return
+				}
+				stack[v] = true
+				for _, av := range acts {
+					visit(av, stack)
+				}
+				delete(stack, v)
+				return
 			case *ssa.Call:
 				for _, n := range []string{"In", "UTC", "Local"} {
 					if c05IsTimeMethod(p, n) {
@@ -180,38 +268,42 @@ func (a *c05) checkArming() {
 		r.Check(whyY == "", "C05.S7-fresh-now", base+" duration uses a fresh clock reading", a.pos(arm),
 			"on every path to the arming the subtracted instant was read from the clock / delivered by the timer after the previous wait",
 			"the timer duration is computed against a stale instant: "+whyY+" — the duration is too long by the time that passed since, the wake-up comes after the activation instant and activations are started late or merged")
-
-		if sorter != nil {
-			a.checkLess(sorter)
-		} else if st&1 != 0 {
-			r.Undecide("C05.S8: Cron.entries is sorted with a comparator the checker does not analyse (not a sort.Interface type with a Less method)")
-		}
-		a.checkInitNext(arm)
 	}
+	for _, s := range sorters {
+		a.checkComparator(s)
+	}
+	a.checkInitNext()
 }
 
-// checkLess: the comparator orders by Next with zero times last.
-func (a *c05) checkLess(t types.Type) {
+// checkComparator: the comparator orders by Next with zero times last.
+// Accepted forms: Less(i, j) bool of a sort.Interface, func(i, j int) bool of
+// sort.Slice, func(a, b *Entry) int of slices.SortFunc.
+func (a *c05) checkComparator(s *c05Sorter) {
 	r := a.r
-	named, ok := t.(*types.Named)
-	if !ok {
+	less := s.fn
+	if less == nil || len(less.Blocks) == 0 {
+		r.Undecide("C05.S8: the comparator Cron.entries is sorted with is not a statically known function")
 		return
 	}
-	var less *ssa.Function
-	for i := 0; i < named.NumMethods(); i++ {
-		if named.Method(i).Name() == "Less" {
-			less = a.p.SSA.FuncValue(named.Method(i))
-		}
-	}
-	if less == nil || len(less.Params) != 3 || len(less.Blocks) == 0 {
-		r.Undecide("C05.S8: comparator %s.Less not found", named.Obj().Name())
+	np := len(less.Params)
+	if np < 2 {
+		r.Undecide("C05.S8: comparator %s has an unexpected signature", a.name(less))
 		return
 	}
-	s, pi, pj := less.Params[0], less.Params[1], less.Params[2]
-	// which(v): v is a load of s[i].Next (1) / s[j].Next (2)
+	pi, pj := less.Params[np-2], less.Params[np-1]
+	// which(v): v is a load of <element i>.Next (1) / <element j>.Next (2)
 	which := func(v ssa.Value) int {
 		E, ok := c05LoadOf(v, a.fNext)
 		if !ok {
+			return 0
+		}
+		if s.elems {
+			switch E {
+			case ssa.Value(pi):
+				return 1
+			case ssa.Value(pj):
+				return 2
+			}
 			return 0
 		}
 		ld, ok := E.(*ssa.UnOp)
@@ -219,21 +311,24 @@ func (a *c05) checkLess(t types.Type) {
 			return 0
 		}
 		ia, ok := ld.X.(*ssa.IndexAddr)
-		if !ok || ia.X != s {
+		if !ok {
 			return 0
 		}
 		switch ia.Index {
-		case pi:
+		case ssa.Value(pi):
 			return 1
-		case pj:
+		case ssa.Value(pj):
 			return 2
 		}
 		return 0
 	}
+	undecoded := false
 	zeroFacts := func(b *ssa.BasicBlock) (zi, zj int) {
-		for _, dc := range domConds(b) {
-			call, tv, ok := boolCallCond(dc.If.Cond, dc.Branch)
-			if !ok || !c05IsTimeMethod(call, "IsZero") {
+		for _, at := range c05DomAtoms(b) {
+			call, isCall := at.v.(*ssa.Call)
+			tv := at.tv
+			if !isCall || !c05IsTimeMethod(call, "IsZero") {
+				undecoded = true
 				continue
 			}
 			val := -1
@@ -253,7 +348,17 @@ func (a *c05) checkLess(t types.Type) {
 		}
 		return
 	}
-	base := a.name(less)
+	chk := func(c bool, rule, construct, pos, okMsg, badMsg string) {
+		if !c && undecoded {
+			r.Undecide("C05.S8: %s (%s): the required zero-time tests are not established, but the comparator branches on conditions the checker does not decode", construct, pos)
+			return
+		}
+		r.Check(c, rule, construct, pos, okMsg, badMsg)
+	}
+	base := "sort comparator"
+	msgFalse := "the comparator answers 'not less' without knowing that the first element's Next is zero: an entry with a real activation can sort after an entry without one, entries[0].Next is then zero/later, the scheduler sleeps (or arms for a later instant) and due activations are not started"
+	msgTrue := "the comparator answers 'less' without the first element's Next set and the second's zero: zero times (no further activation) can sort first, the scheduler then sleeps although other entries are pending"
+	msgCmp := "the chronological comparison is used while one of the two Next values may be the zero time: the zero time is before every instant, so entries without a further activation sort first and the timer is not armed for the pending ones"
 	n := 0
 	for _, b := range less.Blocks {
 		if len(b.Instrs) == 0 || (len(b.Preds) == 0 && b.Index != 0) {
@@ -267,49 +372,59 @@ func (a *c05) checkLess(t types.Type) {
 		zi, zj := zeroFacts(b)
 		switch v := ret.Results[0].(type) {
 		case *ssa.Const:
-			if v.Value != nil && v.Value.String() == "false" {
-				r.Check(zi == 1, "C05.S8-order", base+" return false", a.pos(ret),
-					"false only when s[i].Next is the zero time (zero sorts last)",
-					"the comparator answers 'not less' without knowing that s[i].Next is zero: an entry with a real activation can sort after an entry without one, entries[0].Next is then zero/later, the scheduler sleeps (or arms for a later instant) and due activations are not started")
-			} else {
-				r.Check(zi == -1 && zj == 1, "C05.S8-order", base+" return true", a.pos(ret),
-					"true only when s[i].Next is set and s[j].Next is zero",
-					"the comparator answers 'less' without s[i].Next set and s[j].Next zero: zero times (no further activation) can sort first, the scheduler then sleeps although other entries are pending")
+			if v.Value == nil {
+				continue
+			}
+			if !s.intForm {
+				if v.Value.String() == "false" {
+					chk(zi == 1, "C05.S8-order", base+" return false", a.pos(ret), "false only when the first element's Next is the zero time (zero sorts last)", msgFalse)
+				} else {
+					chk(zi == -1 && zj == 1, "C05.S8-order", base+" return true", a.pos(ret), "true only when the first element's Next is set and the second's is zero", msgTrue)
+				}
+				continue
+			}
+			switch sg := constant.Sign(v.Value); {
+			case sg > 0:
+				chk(zi == 1, "C05.S8-order", base+" return false", a.pos(ret), "'after' only when the first element's Next is the zero time (zero sorts last)", msgFalse)
+			case sg < 0:
+				chk(zi == -1 && zj == 1, "C05.S8-order", base+" return true", a.pos(ret), "'before' only when the first element's Next is set and the second's is zero", msgTrue)
+			default:
+				chk(zi == 1 && zj == 1, "C05.S8-order", base+" return equal", a.pos(ret), "'equal' only when both Next are zero", msgFalse)
 			}
 		case *ssa.Call:
 			okCmp := false
-			if c05IsTimeMethod(v, "Before") && which(v.Call.Args[0]) == 1 && which(v.Call.Args[1]) == 2 {
-				okCmp = true
-			}
-			if c05IsTimeMethod(v, "After") && which(v.Call.Args[0]) == 2 && which(v.Call.Args[1]) == 1 {
+			if !s.intForm {
+				if c05IsTimeMethod(v, "Before") && which(v.Call.Args[0]) == 1 && which(v.Call.Args[1]) == 2 {
+					okCmp = true
+				}
+				if c05IsTimeMethod(v, "After") && which(v.Call.Args[0]) == 2 && which(v.Call.Args[1]) == 1 {
+					okCmp = true
+				}
+			} else if c05IsTimeMethod(v, "Compare") && which(v.Call.Args[0]) == 1 && which(v.Call.Args[1]) == 2 {
 				okCmp = true
 			}
 			if !okCmp {
-				r.Undecide("C05.S8: %s returns a comparison the checker does not decode at %s", base, a.pos(ret))
+				r.Undecide("C05.S8: %s returns a comparison the checker does not decode at %s", a.name(less), a.pos(ret))
 				continue
 			}
-			r.Check(zi == -1 && zj == -1, "C05.S8-order", base+" return Next[i] before Next[j]", a.pos(ret),
-				"chronological comparison only when both Next are set",
-				"the chronological comparison is used while one of the two Next values may be the zero time: the zero time is before every instant, so entries without a further activation sort first and the timer is not armed for the pending ones")
+			chk(zi == -1 && zj == -1, "C05.S8-order", base+" return chronological order", a.pos(ret), "chronological comparison only when both Next are set", msgCmp)
 		default:
-			r.Undecide("C05.S8: %s returns a computed value at %s; comparator shape not decoded", base, a.pos(ret))
+			r.Undecide("C05.S8: %s returns a computed value at %s; comparator shape not decoded", a.name(less), a.pos(ret))
 		}
 	}
 	if n == 0 {
-		r.Undecide("C05.S8: %s has no return", base)
+		r.Undecide("C05.S8: %s has no return", a.name(less))
 	}
 }
 
-// checkDrain (S7-drain): a blocking receive that drains a timer's channel
-// (`<-timer.C()` after Stop() reported false) must not be reachable with the
-// timer whose value the wake-up case has already consumed: that channel will
-// never deliver again and the scheduler would block forever.
-func (a *c05) checkDrain() {
-	r := a.r
-	// the wake-up case: a select case receiving from a timer channel
+// wakeCase: the select case receiving from the timer channel.
+func (a *c05) wakeCase() (*ssa.BasicBlock, *ssa.Function) {
 	var wake *ssa.BasicBlock
 	var wakeFn *ssa.Function
-	for fn := range a.schedOnly {
+	for _, fn := range a.funcs {
+		if !a.schedOnly[fn] {
+			continue
+		}
 		allInstrs(fn, func(in ssa.Instruction) {
 			sel, ok := in.(*ssa.Select)
 			if !ok || !sel.Blocking {
@@ -329,104 +444,164 @@ func (a *c05) checkDrain() {
 			}
 		})
 	}
+	return wake, wakeFn
+}
+
+// checkDrain (S7-drain): a blocking receive that drains a timer's channel
+// (`<-timer.C()` after Stop() reported false), in the loop or in a helper that
+// receives the timer as a parameter, must not be reachable with the timer
+// whose value the wake-up case has already consumed: that channel will never
+// deliver again and the scheduler would block forever.
+func (a *c05) checkDrain() {
+	r := a.r
+	wake, wakeFn := a.wakeCase()
 	if wake == nil {
 		r.Undecide("C05.S7: the scheduler's select has no case receiving from a timer channel (anchor lost)")
 		return
 	}
-	n := 0
-	allInstrs(wakeFn, func(in ssa.Instruction) {
-		u, ok := in.(*ssa.UnOp)
-		if !ok || u.Op != token.ARROW {
-			return
+	fromWake := reachableFrom(wake, nil)
+	why := ""
+	// bad(T, at): on some path from the wake-up case to block `at` (in wakeFn),
+	// T still denotes the timer that was armed before the wait.
+	var bad func(v ssa.Value, at *ssa.BasicBlock, depth int) bool
+	bad = func(v ssa.Value, at *ssa.BasicBlock, depth int) bool {
+		vi, isInstr := v.(ssa.Instruction)
+		if !isInstr || depth > 6 {
+			return false // constants (nil)
 		}
-		call, ok := u.X.(*ssa.Call)
-		if !ok || !call.Call.IsInvoke() || call.Call.Method.Name() != "C" || call.Call.Method.Pkg() == nil || call.Call.Method.Pkg().Path() != "k8s.io/utils/clock" {
-			return
+		if ex, ok := v.(*ssa.Extract); ok {
+			// result of an arming helper: as old as the call
+			if ci, ok := ex.Tuple.(ssa.Instruction); ok {
+				vi = ci
+			}
 		}
-		if !reachableFrom(wake, nil)[in.Block()] {
-			return // e.g. the drain in the stop case
+		db := vi.Block()
+		R := reachableFrom(wake, map[*ssa.BasicBlock]bool{db: true})
+		if R[at] {
+			return true // reached without re-executing v's definition: v predates the wake-up
 		}
-		n++
-		why := ""
-		// bad(T, at): on some path from the wake-up case to instruction `at`,
-		// T still denotes the timer that was armed before the wait.
-		var bad func(v ssa.Value, at *ssa.BasicBlock, depth int) bool
-		bad = func(v ssa.Value, at *ssa.BasicBlock, depth int) bool {
-			vi, isInstr := v.(ssa.Instruction)
-			if !isInstr || depth > 6 {
-				return false // constants (nil), parameters
-			}
-			db := vi.Block()
-			R := reachableFrom(wake, map[*ssa.BasicBlock]bool{db: true})
-			if R[at] {
-				return true // reached without re-executing v's definition: v predates the wake-up
-			}
-			phi, isPhi := v.(*ssa.Phi)
-			if !isPhi {
-				return false
-			}
-			for i, ed := range phi.Edges {
-				pred := db.Preds[i]
-				if R[pred] && bad(ed, pred, depth+1) {
-					why = "through the block ending at " + a.pos(pred.Instrs[len(pred.Instrs)-1]) + " the timer variable still refers to the timer that has just fired"
-					return true
-				}
-			}
+		phi, isPhi := v.(*ssa.Phi)
+		if !isPhi {
 			return false
 		}
-		if bad(call.Call.Value, in.Block(), 0) && why == "" {
-			why = "the timer variable is not cleared or replaced between the wake-up and the drain"
+		for i, ed := range phi.Edges {
+			pred := db.Preds[i]
+			if R[pred] && bad(ed, pred, depth+1) {
+				why = "through the block ending at " + a.pos(pred.Instrs[len(pred.Instrs)-1]) + " the timer variable still refers to the timer that has just fired"
+				return true
+			}
 		}
-		r.Check(why == "", "C05.S7-drain", a.name(wakeFn)+" timer drain after Stop()==false", a.pos(in),
-			"the drain receive cannot see the timer whose value the wake-up case consumed (variable is nil on those paths)",
-			"after a wake-up the scheduler can execute `<-timer.C()` on the timer whose only value it has already received: Stop() reports false, the receive blocks forever, the scheduler never waits again — no later activation is started and Stop/Remove/Schedule hang ("+why+")")
-	})
+		return false
+	}
+	// badAt: the same question for a timer value T used at `at` in function fn
+	// (a helper receiving the timer as a parameter is followed to its callers).
+	var badAt func(T ssa.Value, at *ssa.BasicBlock, fn *ssa.Function, depth int) (isBad, relevant bool)
+	badAt = func(T ssa.Value, at *ssa.BasicBlock, fn *ssa.Function, depth int) (bool, bool) {
+		if fn == wakeFn {
+			if !fromWake[at] {
+				return false, false // e.g. the drain in the stop case
+			}
+			return bad(T, at, 0), true
+		}
+		par, ok := T.(*ssa.Parameter)
+		if !ok || depth > 4 {
+			return false, false // a timer created in the helper itself
+		}
+		idx := c05ParamIndex(par)
+		anyBad, anyRel := false, false
+		for _, s := range a.sites[fn] {
+			args := s.Common().Args
+			if idx < 0 || idx >= len(args) {
+				continue
+			}
+			b, rel := badAt(args[idx], s.Block(), s.Parent(), depth+1)
+			anyBad = anyBad || b
+			anyRel = anyRel || rel
+		}
+		return anyBad, anyRel
+	}
+	n := 0
+	construct := "scheduler: timer drain after Stop()==false"
+	for _, fn := range a.funcs {
+		if !a.schedOnly[fn] {
+			continue
+		}
+		allInstrs(fn, func(in ssa.Instruction) {
+			u, ok := in.(*ssa.UnOp)
+			if !ok || u.Op != token.ARROW {
+				return
+			}
+			call, ok := u.X.(*ssa.Call)
+			if !ok || !call.Call.IsInvoke() || call.Call.Method.Name() != "C" || call.Call.Method.Pkg() == nil || call.Call.Method.Pkg().Path() != "k8s.io/utils/clock" {
+				return
+			}
+			why = ""
+			isBad, relevant := badAt(call.Call.Value, in.Block(), fn, 0)
+			if !relevant {
+				return
+			}
+			n++
+			if isBad && why == "" {
+				why = "the timer variable is not cleared or replaced between the wake-up and the drain"
+			}
+			r.Check(!isBad, "C05.S7-drain", construct, a.pos(in),
+				"the drain receive cannot see the timer whose value the wake-up case consumed (variable is nil on those paths)",
+				"after a wake-up the scheduler can execute `<-timer.C()` on the timer whose only value it has already received: Stop() reports false, the receive blocks forever, the scheduler never waits again — no later activation is started and Stop/Remove/Schedule hang ("+why+")")
+		})
+	}
 	if n == 0 {
-		r.Trivial("C05.S7-drain", a.name(wakeFn)+" timer drain after Stop()==false", a.p.Pos(wakeFn.Pos()), "no blocking drain receive is reachable from the wake-up case")
+		r.Trivial("C05.S7-drain", construct, a.p.Pos(wakeFn.Pos()), "no blocking drain receive is reachable from the wake-up case")
 	}
 }
 
 // checkInitNext (S7-init-next): before the scheduler waits for the first time
 // every entry already in Cron.entries gets Next = its Schedule.Next(clock
 // reading): entries added before Start have a zero Next, and after a restart
-// the old Next values lie in the past.
-func (a *c05) checkInitNext(arm *ssa.Call) {
-	fn := arm.Parent()
-	var sel *ssa.Select
-	allInstrs(fn, func(in ssa.Instruction) {
-		if s, ok := in.(*ssa.Select); ok && s.Blocking {
-			sel = s
-		}
-	})
-	if sel == nil {
+// the old Next values lie in the past. The loop doing so may live in the
+// scheduler function or in a helper.
+func (a *c05) checkInitNext() {
+	cs := a.schedCase(a.fStop)
+	if cs == nil {
 		return
 	}
-	afterWait := reachableFrom(sel.Block(), nil)
-	found, why := false, "no store Entry.Next = Entry.Schedule.Next(<clock reading>) over the elements of Cron.entries is executed before the scheduler first waits"
-	allInstrs(fn, func(in ssa.Instruction) {
-		st, ok := in.(*ssa.Store)
-		if !ok || afterWait[in.Block()] || !reachableFrom(in.Block(), nil)[sel.Block()] {
-			return
+	why := "no store Entry.Next = Entry.Schedule.Next(<clock reading>) over the elements of Cron.entries is executed before the scheduler first waits"
+	// qualifying stores: for every element of an iteration over Cron.entries
+	qual := map[ssa.Instruction]bool{}
+	for _, fn := range a.funcs {
+		if !a.schedOnly[fn] {
+			continue
 		}
-		e, ok := c05FieldAddr(st.Addr, a.fNext)
-		if !ok {
-			return
-		}
-		// e = element of Cron.entries
-		ld, ok := e.(*ssa.UnOp)
-		if !ok || ld.Op != token.MUL {
-			return
-		}
-		ia, ok := ld.X.(*ssa.IndexAddr)
-		if !ok {
-			return
-		}
-		if _, ok := c05LoadOf(ia.X, a.fEntries); !ok {
-			return
-		}
-		if proper, _, w := a.properNext(st.Val, e); proper {
-			// the store must happen in every iteration: on all paths from the
-			// element's definition to the end of its iteration
+		allInstrs(fn, func(in ssa.Instruction) {
+			st, ok := in.(*ssa.Store)
+			if !ok {
+				return
+			}
+			e, ok := c05FieldAddr(st.Addr, a.fNext)
+			if !ok {
+				return
+			}
+			ld, ok := e.(*ssa.UnOp)
+			if !ok || ld.Op != token.MUL {
+				return
+			}
+			ia, ok := ld.X.(*ssa.IndexAddr)
+			if !ok {
+				return
+			}
+			if _, ok := c05LoadOf(ia.X, a.fEntries); !ok {
+				return
+			}
+			if c05ConstInt(ia.Index, 0) {
+				return
+			}
+			proper, _, w := a.properNext(st.Val, e)
+			if !proper {
+				if !reachableFrom(cs.sel.Block(), nil)[in.Block()] {
+					why = "store at " + a.pos(in) + ": " + w
+				}
+				return
+			}
+			// the store must happen in every iteration
 			ff := &FlagFlow{Fn: fn, Must: true,
 				Transfer: func(j ssa.Instruction, stt uint64) uint64 {
 					if j == ssa.Instruction(ld) {
@@ -455,15 +630,47 @@ func (a *c05) checkInitNext(arm *ssa.Call) {
 				}
 			}
 			if all {
-				found = true
+				// the iteration as a whole qualifies: mark where it starts (the load of
+				// the list being ranged over), so that an empty list qualifies too
+				if h := c05LoopHeaderOf(in.Block()); h != nil && len(h.Instrs) > 0 {
+					qual[h.Instrs[0]] = true
+				} else if li, ok := ia.X.(ssa.Instruction); ok {
+					qual[li] = true
+				}
 			} else {
 				why = "the store at " + a.pos(in) + " is skipped for some entries (conditional)"
 			}
-		} else {
-			why = "store at " + a.pos(in) + ": " + w
+		})
+	}
+	f := &c05Flow{a: a, G: 2}
+	f.Step = func(in ssa.Instruction, g int) (int, bool) {
+		if qual[in] {
+			return 1, false
 		}
-	})
-	a.r.Check(found, "C05.S7-init-next", a.name(fn)+" initial Next of existing entries", a.p.Pos(fn.Pos()),
+		if in == a.sched.Blocks[0].Instrs[0] {
+			return 0, false // a (re)started scheduler begins with stale Next values
+		}
+		return g, false
+	}
+	f.Run(nil)
+	ok, reached := f.All(cs.sel, func(g int) bool { return g == 1 })
+	// the wake-up bookkeeping also stores Next per element; only stores that
+	// execute before the first wait count, which the flow guarantees for the
+	// first arrival at the select; later arrivals keep the bit.
+	a.r.Check(ok && reached, "C05.S7-init-next", "scheduler: initial Next of existing entries", a.p.Pos(a.sched.Pos()),
 		"before the first wait each element of Cron.entries gets Next from its own schedule and a clock reading",
 		"when the scheduler starts, the entries already registered do not get Next = Schedule.Next(now) ("+why+"): entries added before Start never run (Next stays zero), and after Stop+Start the stale Next values make every entry fire at once for instants that passed while the Cron was stopped")
+}
+
+// c05LoopHeaderOf: the header of the innermost natural loop containing block b.
+func c05LoopHeaderOf(b *ssa.BasicBlock) *ssa.BasicBlock {
+	from := reachableFrom(b, nil)
+	for d := b; d != nil; d = d.Idom() {
+		for _, p := range d.Preds {
+			if d.Dominates(p) && from[p] {
+				return d
+			}
+		}
+	}
+	return nil
 }
